@@ -16,7 +16,9 @@ Written against the statement vocabulary only (not against the algorithm):
   every requested attribute ends at the requested value (unless the call raised), and every
   attribute that was not requested keeps its value whenever no emitted statement restates it or
   its existing value was stated (also for the statements emitted before an exception);
-* `schemaOk`  — every statement carries the requested schema.
+* `schemaOk`  — every statement carries the requested schema;
+* `addressOk` — every statement names the column by the name it has at that point;
+* `constraintOk` — the type-bound CHECK constraint is only dropped / added with a type change.
 
 Readings (never stronger than the property text): an attribute neither requested nor stated is
 unconstrained when a statement restates it; `autoincrement` is an attribute of the MySQL family
@@ -161,6 +163,23 @@ def addressOk (name : String) : List Stmt → Bool
     (match Stmt.colRef st with
      | some c => c == name
      | none => true) && addressOk (nextName name st) rest
+
+/-- the schema-type CHECK constraint belongs to the column's type: it may be dropped only when a
+type change is requested and it is the constraint of the stated existing type, and one may be added
+only as the constraint of the requested new type.  In particular an `alter_column` without `type_`
+emits no `DROP CONSTRAINT` / `ADD CONSTRAINT` statement at all. -/
+def constraintStmtOk (r : Req) : Stmt → Bool
+  | .dropConstraint _ n =>
+    r.type_.isSome && (match r.exType with
+      | some e => e.ck == some (some n)
+      | none => false)
+  | .addConstraint _ nm _ =>
+    (match r.type_ with
+     | some t => t.ck == some nm
+     | none => false)
+  | _ => true
+
+def constraintOk (r : Req) (stmts : List Stmt) : Bool := stmts.all (constraintStmtOk r)
 
 /-- the domain the property text names: server defaults are values or `None` (no identity /
 computed constructs among the requested or stated defaults) -/
